@@ -59,12 +59,16 @@ def _elif_arms(s: ast.If) -> list[Arm]:
     arms = []
     cur: ast.If | None = s
     while cur is not None:
-        arms.append(Arm(cur.test, cur.body, cur))
-        if len(cur.orelse) == 1 and isinstance(cur.orelse[0], ast.If):
-            cur = cur.orelse[0]
+        test, body, orelse = cur.test, cur.body, cur.orelse
+        # a final two-armed `if not c: B else: A` is the chain `if c: A else: B` written the other way round
+        if isinstance(test, ast.UnaryOp) and isinstance(test.op, ast.Not) and orelse and not (len(orelse) == 1 and isinstance(orelse[0], ast.If)):
+            test, body, orelse = test.operand, orelse, body
+        arms.append(Arm(test, body, cur))
+        if len(orelse) == 1 and isinstance(orelse[0], ast.If) and orelse is cur.orelse:
+            cur = orelse[0]
         else:
-            if cur.orelse:
-                arms.append(Arm(None, cur.orelse, cur.orelse[0], True))
+            if orelse:
+                arms.append(Arm(None, orelse, orelse[0], True))
             cur = None
     return arms
 
